@@ -26,6 +26,22 @@
 (*                 sozu's.                                                 *)
 (*   P_C03_Rfc     Run(c) is one of the admissible outcomes.               *)
 (*                                                                         *)
+(* METHOD dimension: every case carries a method token m (GET, HEAD, POST,  *)
+(* CONNECT, OPTIONS, the extension token PURGE, lower-case get). The RFCs'  *)
+(* framing rules depend on the method in a few places only, and sozu's code *)
+(* in a few others; both are transcribed below:                             *)
+(*   RFC  request-target form: authority-form only with CONNECT, "*" only   *)
+(*        with OPTIONS (9112 3.2.3/3.2.4); an HTTP/2 CONNECT carries only   *)
+(*        :method and :authority (9113 8.5); the content-length vs DATA     *)
+(*        rule (9113 8.1.1) and the "no CL, no TE = no body" rule (9112     *)
+(*        6.3) hold for EVERY request method - "HEAD has no content" is a   *)
+(*        statement about the RESPONSE to HEAD.                             *)
+(*   code kawa parse_url (OPTIONS: asterisk-form, CONNECT: authority-form), *)
+(*        pkawa (":path: *" only with OPTIONS; CONNECT refused),            *)
+(*        h2.rs content_length_exempt (HEAD only when reading a backend's   *)
+(*        response), editor.rs on_response_headers (HEAD: response ends at  *)
+(*        its head). Everything else treats the method as an opaque token.  *)
+(*                                                                         *)
 (* Deviations: named switches modelling what the code did before the       *)
 (* corresponding `fix:` commits (or still does, for open findings). With   *)
 (* Deviations = {} both properties hold; with any switch on TLC produces a *)
@@ -40,7 +56,13 @@ CONSTANTS MaxHdr,      \* header tokens per case in the wide slices (2 quick, 3 
 VARIABLE case
 
 AllDeviations == {"NoLenUntilClose", "ClPlus", "TeLenient", "LenientName",
-                  "H2DupCl", "H2PathSpace", "TrailerAfterCl", "TrailerNoLastChunk"}
+                  "H2DupCl", "H2PathSpace", "TrailerAfterCl", "TrailerNoLastChunk",
+                  \* HeadRequestExempt: the HEAD exemption of h2.rs content_length_exempt (meant for RESPONSES to HEAD read on a
+                  \*   backend connection) also applied to the DATA of a HEAD REQUEST: content-length N with M # N bytes of DATA
+                  \*   is forwarded as a Content-Length: N message with M body bytes (a defect class, never the code's behaviour)
+                  \* H2ConnectOrdinary: an HTTP/2 CONNECT carrying :scheme and :path (malformed, RFC 9113 8.5) treated as an
+                  \*   ordinary request and written to an HTTP/1.1 backend as "CONNECT /p HTTP/1.1" (before fix: commit 2577ced)
+                  "HeadRequestExempt", "H2ConnectOrdinary"}
 ASSUME Deviations \subseteq AllDeviations
 Dev(d) == d \in Deviations
 
@@ -50,6 +72,10 @@ Count(s, x) == Cardinality({i \in 1..Len(s) : s[i] = x})
 Filter(s, S) == SelectSeq(s, LAMBDA x : x \in S)
 
 ---------------------------------------------------------------------------
+(* Method tokens. PURGE stands for any extension method, "get" for a lower-case spelling (method names are
+   case-sensitive, RFC 9110 9.1: "get" is an extension method too - it must reach the backend as it was sent) *)
+Methods == {"GET", "HEAD", "POST", "CONNECT", "OPTIONS", "PURGE", "get"}
+
 (* Requests as sozu / a strict reader understand them *)
 
 Req(m, t, h, f, n) == [method |-> m, target |-> t, host |-> h, framing |-> f, len |-> n]
@@ -79,6 +105,12 @@ WireTeOk(tes) == LET l == AllCodings(tes, 1) IN l[Len(l)] = "chunked" /\ Count(l
 
 BadRead == [ok |-> FALSE, reqs |-> <<>>]
 
+\* RFC 9112 3.2: authority-form (host:port) is only used with CONNECT - and CONNECT uses nothing else (3.2.3);
+\* asterisk-form only with OPTIONS (3.2.4); every other method: origin-form or absolute-form. The method token is
+\* compared as it is written (case-sensitive). A request BODY is framed by Content-Length / Transfer-Encoding
+\* whatever the method is (RFC 9112 6.3 has no per-method rule for requests).
+WireTargetOk(m, t) == CASE t = "a:80" -> m = "CONNECT" [] t = "*" -> m = "OPTIONS" [] OTHER -> m # "CONNECT"
+
 RECURSIVE ChunkEnd(_, _)
 \* index just after a well-formed chunked body starting at i (0 if malformed/incomplete)
 ChunkEnd(w, i) ==
@@ -100,6 +132,8 @@ SR(w, i, acc) ==
   IF i > Len(w) THEN [ok |-> TRUE, reqs |-> acc]
   ELSE IF w[i][1] # "line" THEN BadRead                     \* bytes that are not a request line
   ELSE IF w[i][3] = "/p q" THEN BadRead                      \* whitespace inside the request-target: four words on the line
+  ELSE IF w[i][2] = "G T" THEN BadRead                       \* the method is not a token
+  ELSE IF ~WireTargetOk(w[i][2], w[i][3]) THEN BadRead       \* request-target form the method does not allow
   ELSE
     LET ends == {j \in (i + 1)..Len(w) : w[j][1] = "eoh"}
     IN IF ends = {} THEN BadRead                              \* incomplete head
@@ -146,7 +180,10 @@ NoReq == Req("", "", "", "", 0)
 ---------------------------------------------------------------------------
 (* HTTP/1.1 frontend: kawa H1 parser + sozu (mux/h1.rs, kawa_h1/editor.rs) *)
 
-RL1 == {"ok", "badmethod", "abs:b", "star", "optstar", "http10", "http09", "twosp"}
+\* request-line shapes; the method is the case's own dimension (c.m). ok: origin-form /p; abs:b: absolute-form naming
+\* cluster b; star: asterisk-form "*"; auth: authority-form "a:80" (host:port of cluster a); http10: /p HTTP/1.0;
+\* badmethod / http09 / twosp: not a request line at all
+RL1 == {"ok", "badmethod", "abs:b", "star", "auth", "http10", "http09", "twosp"}
 HostShapes == {"a", "b", "none", "ab", "ba", "aa"}
 H1Syntax == {"obsfold", "barelf", "nul", "cr", "spcolon"}
 H1Cl == {"cl:5", "cl:3", "cl:plus", "cl:hex", "cl:empty", "cl:listeq", "cl:listne"}
@@ -160,13 +197,19 @@ ChunkShapes == {"valid", "trailers", "trframing", "badsize", "ext", "lf"}
 HostSeq(h) == CASE h = "a" -> <<"a">> [] h = "b" -> <<"b">> [] h = "none" -> <<>>
                 [] h = "ab" -> <<"a", "b">> [] h = "ba" -> <<"b", "a">> [] h = "aa" -> <<"a", "a">>
 
-RlInfo(r) ==
-  CASE r = "ok"        -> [bad |-> FALSE, method |-> "POST",    target |-> "/p",         ver |-> "1.1"]
-    [] r = "http10"    -> [bad |-> FALSE, method |-> "POST",    target |-> "/p",         ver |-> "1.0"]
-    [] r = "abs:b"     -> [bad |-> FALSE, method |-> "POST",    target |-> "http://b/p", ver |-> "1.1"]
-    [] r = "optstar"   -> [bad |-> FALSE, method |-> "OPTIONS", target |-> "*",          ver |-> "1.1"]
-    [] r = "star"      -> [bad |-> TRUE,  method |-> "GET",     target |-> "*",          ver |-> "1.1"]  \* kawa: Invalid URI
-    [] OTHER           -> [bad |-> TRUE,  method |-> "",        target |-> "",           ver |-> ""]
+\* kawa parse_url(method, target) + sozu's host validation of the authority it yields. The method is compared
+\* case-insensitively by kawa (only the exact tokens are in the alphabet here):
+\*   OPTIONS : "*" | origin-form | absolute-form            CONNECT : the WHOLE target is the authority, path "/"
+\*   others  : origin-form | absolute-form                            (so "/p", "*", "http://b/p" are no host: 400)
+\* kind: origin | abs | asterisk | authority | bad (bad = "Invalid URI" / invalid host: 400)
+RlInfo(r, m) ==
+  LET tgt == CASE r \in {"ok", "http10"} -> "/p" [] r = "abs:b" -> "http://b/p" [] r = "star" -> "*" [] r = "auth" -> "a:80" [] OTHER -> ""
+      kind == CASE r \in {"ok", "http10"} -> IF m = "CONNECT" THEN "bad" ELSE "origin"
+                [] r = "abs:b"            -> IF m = "CONNECT" THEN "bad" ELSE "abs"
+                [] r = "star"             -> IF m = "OPTIONS" THEN "asterisk" ELSE "bad"
+                [] r = "auth"             -> IF m = "CONNECT" THEN "authority" ELSE "bad"
+                [] OTHER                  -> "bad"
+  IN [bad |-> kind = "bad", kind |-> kind, method |-> m, target |-> tgt, ver |-> IF r = "http10" THEN "1.0" ELSE "1.1"]
 
 ClVal(t)  == CASE t = "cl:3" -> 3 [] OTHER -> 5
 ClText(t) == CASE t = "cl:5" -> "5" [] t = "cl:3" -> "3" [] t = "cl:plus" -> "+5" [] t = "cl:hex" -> "0x5"
@@ -212,10 +255,11 @@ RECURSIVE H1Fold(_, _, _)
 H1Fold(h, i, st) == IF i > Len(h) \/ st.err THEN st ELSE H1Fold(h, i + 1, H1Step(st, h[i]))
 
 H1Run(c) ==
-  LET rl    == RlInfo(c.rl)
+  LET rl    == RlInfo(c.rl, c.m)
       st    == H1Fold(c.hdrs, 1, H1Init)
       hosts == HostSeq(c.host)
-      auth  == IF c.rl = "abs:b" THEN "b" ELSE IF hosts = <<>> THEN "" ELSE hosts[1]   \* request line wins, then FIRST Host
+      \* request line wins (absolute-form; CONNECT's authority-form), then the FIRST Host
+      auth  == IF rl.kind = "abs" THEN "b" ELSE IF rl.kind = "authority" THEN "a" ELSE IF hosts = <<>> THEN "" ELSE hosts[1]
       teBad == ~Dev("TeLenient") /\ (~TeListOk(st.tes) \/ (rl.ver = "1.0" /\ st.tes # <<>>))
       clBad == ~Dev("ClPlus") /\ Has(st.out, <<"cl", "+5">>)
       head  == WireReq(rl.method, rl.target, rl.ver, auth, st.out)
@@ -223,7 +267,9 @@ H1Run(c) ==
       und(v) == IF st.close THEN <<v>> ELSE <<v, SentinelH1>>
       R(f, n) == Req(rl.method, rl.target, auth, f, n)
   IN IF rl.bad \/ st.err \/ teBad \/ clBad \/ auth = "" THEN Result("r400", <<>>, <<>>, FALSE, FALSE)
-     ELSE IF c.rl = "optstar" THEN Result("r404", <<>>, <<>>, FALSE, FALSE)      \* no frontend for path "*"
+     ELSE IF rl.kind = "asterisk" THEN Result("r404", <<>>, <<>>, FALSE, FALSE)  \* OPTIONS *: no frontend for path "*"
+     \* from here on the method is an opaque token: a body is framed by Content-Length / Transfer-Encoding for GET, HEAD,
+     \* CONNECT ... exactly as for POST, and a request with neither has no body whatever its method (editor.rs)
      ELSE IF st.bs = "len" THEN
           Result("fwd", und(R("cl", st.len)), head \o (IF st.len > 0 THEN <<<<"raw", st.len>>>> ELSE <<>>) \o tail, FALSE, FALSE)
      ELSE IF st.bs = "chunked" THEN
@@ -239,8 +285,10 @@ H1Run(c) ==
 ---------------------------------------------------------------------------
 (* HTTP/2 frontend: pkawa::handle_header / handle_trailer, h2.rs::handle_data_frame *)
 
-PS == {"ok", "auth:b", "noauth", "nomethod", "nopath", "noscheme", "dup:path", "dup:method", "after", "unknown",
-       "path:empty", "path:noslash", "path:star", "path:optstar", "path:space", "path:frag", "method:bad", "scheme:bad"}
+\* pseudo-header shapes; the value of :method is the case's own dimension (c.m). nosp: neither :scheme nor :path -
+\* the form RFC 9113 8.5 prescribes for CONNECT (and malformed for every other method)
+PS == {"ok", "auth:b", "noauth", "nomethod", "nopath", "noscheme", "nosp", "dup:path", "dup:method", "after", "unknown",
+       "path:empty", "path:noslash", "path:star", "path:space", "path:frag", "method:bad", "scheme:bad"}
 H2Bad == {"upper", "badname", "val:cr", "val:lf", "val:nul", "te:gzip",
           "cs:connection", "cs:keep-alive", "cs:proxy-connection", "cs:transfer-encoding", "cs:upgrade"}
 H2Cl == {"cl:5", "cl:3", "cl:plus", "cl:sp", "cl:empty", "cl:list"}
@@ -250,11 +298,11 @@ DataShapes == {"es", "d5", "d3", "d6", "d5+1"}
 TrShapes == {"none", "plain", "ident", "framing", "pseudo", "cs", "badval", "noes"}
 
 P(k, v) == [k |-> k, v |-> v]
-PsList(ps, hdrs) ==
-  LET m  == P(":method", IF ps = "path:optstar" THEN "OPTIONS" ELSE IF ps = "method:bad" THEN "G T" ELSE "POST")
+PsList(ps, mth, hdrs) ==
+  LET m  == P(":method", IF ps = "method:bad" THEN "G T" ELSE mth)
       s  == P(":scheme", IF ps = "scheme:bad" THEN "ftp" ELSE "https")
       a  == P(":authority", IF ps = "auth:b" THEN "b" ELSE "a")
-      pv == CASE ps = "path:empty" -> "" [] ps = "path:noslash" -> "p" [] ps \in {"path:star", "path:optstar"} -> "*"
+      pv == CASE ps = "path:empty" -> "" [] ps = "path:noslash" -> "p" [] ps = "path:star" -> "*"
               [] ps = "path:space" -> "/p q" [] ps = "path:frag" -> "/p#f" [] OTHER -> "/p"
       p  == P(":path", pv)
       h  == [i \in 1..Len(hdrs) |-> P("tok", hdrs[i])]
@@ -262,6 +310,7 @@ PsList(ps, hdrs) ==
        [] ps = "nomethod"   -> <<s, a, p>> \o h
        [] ps = "nopath"     -> <<m, s, a>> \o h
        [] ps = "noscheme"   -> <<m, a, p>> \o h
+       [] ps = "nosp"       -> <<m, a>> \o h
        [] ps = "dup:path"   -> <<m, s, a, p, P(":path", "/q")>> \o h
        [] ps = "dup:method" -> <<m, s, a, p, P(":method", "GET")>> \o h
        [] ps = "after"      -> <<m, s, a, P("tok", "plain")>> \o h \o <<p>>
@@ -305,15 +354,26 @@ RECURSIVE Sum(_)
 Sum(s) == IF s = <<>> THEN 0 ELSE Head(s) + Sum(Tail(s))
 
 H2Run(c) ==
-  LET st     == H2Fold(PsList(c.ps, c.hdrs), 1, H2Init)
+  LET st     == H2Fold(PsList(c.ps, c.m, c.hdrs), 1, H2Init)
       frames == DataFrames(c.data)
       total  == Sum(frames)
       rst(partial, complete) == Result("rst", <<SentinelH2>>, WireSentinelH2, partial, complete)
+      \* ":path: *" only with the exact token OPTIONS (pkawa compares the bytes)
       pathBad == st.path # "" /\ ~(st.path \in {"/p", "/p q"} \/ (st.path = "*" /\ st.method = "OPTIONS"))
-      headBad == st.inv \/ pathBad \/ st.method = "" \/ st.auth = "" \/ st.path = "" \/ st.scheme = ""
+      \* CONNECT is not supported on an HTTP/2 frontend: without :scheme / :path the presence test below refuses it, with
+      \* them it is malformed (RFC 9113 8.5) and refused by name. Before the fix it was an ordinary request (H2ConnectOrdinary).
+      connectBad == st.method = "CONNECT" /\ ~Dev("H2ConnectOrdinary")
+      headBad == st.inv \/ pathBad \/ st.method = "" \/ st.auth = "" \/ st.path = "" \/ st.scheme = "" \/ connectBad
                  \/ st.hostConflict \/ (st.hostv # "" /\ st.hostv # st.auth)
+      \* h2.rs content_length_exempt: HEAD counts only where a RESPONSE is read (position.is_client(), a backend connection);
+      \* on the frontend the three content-length vs DATA tests apply to a HEAD request as to any other. The deviation
+      \* drops that conjunct (HttpContext::method is already HEAD when the request's DATA arrives).
+      exempt   == Dev("HeadRequestExempt") /\ st.method = "HEAD"
       esOnHeaders == c.data = "es" /\ c.tr = "none"
       declared == st.bs = "len"
+      mismatch == declared /\ total # st.len /\ ~exempt       \* END_STREAM (on DATA or on trailers): total must equal the declaration
+      over     == declared /\ total > st.len /\ ~exempt       \* every DATA frame: never more than declared
+      body     == IF total > 0 THEN <<<<"raw", total>>>> ELSE <<>>
       R(f, n) == Req(st.method, st.path, st.auth, f, n)
       headCl  == WireReq(st.method, st.path, "1.1", st.auth, st.out)
       headTe  == WireReq(st.method, st.path, "1.1", st.auth, <<<<"te", "chunked">>>>)
@@ -328,20 +388,20 @@ H2Run(c) ==
           ELSE Result("fwd", <<R("cl", 0), SentinelH2>>, head0 \o WireSentinelH2, FALSE, FALSE)
      ELSE IF c.tr = "none" THEN
           IF declared THEN
-               IF total = st.len THEN Result("fwd", <<R("cl", total), SentinelH2>>, headCl \o <<<<"raw", total>>>> \o WireSentinelH2, FALSE, FALSE)
+               IF ~mismatch THEN Result("fwd", <<R("cl", total), SentinelH2>>, headCl \o body \o WireSentinelH2, FALSE, FALSE)
                ELSE \* too much / too little DATA: RST_STREAM; the head (and at most Content-Length bytes) may be out already
                     rst(TRUE, total > st.len /\ frames[1] = st.len)
           ELSE Result("fwd", <<R("chunked", total), SentinelH2>>, headTe \o chunks \o <<<<"last">>, <<"eot">>>> \o WireSentinelH2, FALSE, FALSE)
      ELSE \* DATA without END_STREAM, then a trailer HEADERS frame
           \* (a Content-Length body that is already complete may have been delivered before the trailers are judged)
-          IF declared /\ total > st.len THEN rst(TRUE, frames[1] = st.len)            \* the excess DATA is seen first
+          IF over THEN rst(TRUE, frames[1] = st.len)                                  \* the excess DATA is seen first
           ELSE IF c.tr = "noes" THEN Result("goaway", <<>>, <<>>, TRUE, declared /\ total = st.len)   \* second HEADERS without END_STREAM
           ELSE IF ~trOk THEN rst(TRUE, declared /\ total = st.len)                   \* pseudo / connection-specific / bad byte in trailers
           ELSE IF declared THEN
-               IF total # st.len THEN rst(TRUE, FALSE)
+               IF mismatch THEN rst(TRUE, FALSE)
                ELSE \* H1 cannot carry trailers after a Content-Length body: they are dropped
                     Result("fwd", <<R("cl", total), SentinelH2>>,
-                           headCl \o <<<<"raw", total>>>> \o (IF Dev("TrailerAfterCl") THEN <<<<"junk">>>> ELSE <<>>) \o WireSentinelH2, FALSE, FALSE)
+                           headCl \o body \o (IF Dev("TrailerAfterCl") THEN <<<<"junk">>>> ELSE <<>>) \o WireSentinelH2, FALSE, FALSE)
           ELSE Result("fwd", <<R("chunked", total), SentinelH2>>,
                       headTe \o chunks \o (IF Dev("TrailerNoLastChunk") THEN <<>> ELSE <<<<"last">>>>)
                              \o <<<<"trailer", "x-t">>, <<"eot">>>> \o WireSentinelH2, FALSE, FALSE)   \* identity fields elided
@@ -352,42 +412,66 @@ Run(c) == IF c.front = "h1" THEN H1Run(c) ELSE H2Run(c)
 (* The admissible outcomes: an independent reading of the RFCs + the property text.
    classes: admissible client-visible classes; fwd: admissible understood-lists when forwarding. *)
 
+\* The method's part in the RFC reading (independent of Run):
+\*  * the request-target form must be one the method allows (RFC 9112 3.2): authority-form iff CONNECT, "*" only with
+\*    OPTIONS; anything else is an invalid request line (400);
+\*  * message framing does not depend on the request method (RFC 9112 6.3): GET / HEAD / OPTIONS / an unknown method
+\*    with Content-Length or Transfer-Encoding carry that body and must be forwarded so framed (or rejected where the
+\*    fields are invalid, exactly as for POST); POST without either has no body;
+\*  * CONNECT asks for a tunnel, which a gateway may refuse altogether (400 / 405 / 501 / close); if it is forwarded it
+\*    is forwarded in authority-form, routed by that authority, framed like any request ("a CONNECT request message does
+\*    not have content", RFC 9110 9.3.6: content on it may also be refused);
+\*  * the method token reaches the backend as it was sent (case-sensitive, RFC 9110 9.1).
 H1Adm(c) ==
-  LET rl    == RlInfo(c.rl)
+  LET rl    == RlInfo(c.rl, c.m)     \* (used for target / version / the form table only)
+      targetBad == \/ (c.rl = "auth") # (c.m = "CONNECT")         \* authority-form iff CONNECT
+                   \/ (c.rl = "star" /\ c.m # "OPTIONS")          \* asterisk-form only with OPTIONS
+      connect == c.m = "CONNECT"
       hosts == HostSeq(c.host)
       cls   == Filter(c.hdrs, H1Cl)
       tes   == Filter(c.hdrs, H1Te)
       codings == LET RECURSIVE Cat(_) Cat(i) == IF i > Len(tes) THEN <<>> ELSE TeCodings(tes[i]) \o Cat(i + 1) IN Cat(1)
-      syntaxBad == c.rl \in {"badmethod", "http09", "twosp", "star"} \/ \E i \in 1..Len(c.hdrs) : c.hdrs[i] \in H1Syntax \cup {"badname"}
+      syntaxBad == c.rl \in {"badmethod", "http09", "twosp"} \/ targetBad \/ \E i \in 1..Len(c.hdrs) : c.hdrs[i] \in H1Syntax \cup {"badname"}
       \* "+5": reject, or forward NORMALISED (the wire must then say 5, or chunked): the strict reader judges the wire
       clInvalid == \E i \in 1..Len(cls) : cls[i] \in {"cl:hex", "cl:empty", "cl:listne"}
       clDiffer  == \E i, j \in 1..Len(cls) : ClVal(cls[i]) # ClVal(cls[j])
       teInvalid == ~TeListOk(codings) \/ (rl.ver = "1.0" /\ tes # <<>>)
-      noHost    == hosts = <<>> /\ c.rl # "abs:b"
+      noHost    == hosts = <<>> /\ c.rl \notin {"abs:b", "auth"}
       \* a (valid) Transfer-Encoding overrides Content-Length altogether (RFC 9112 6.3 (3)): with it, whatever the
       \* Content-Length fields say, rejecting and forwarding chunked WITHOUT any Content-Length are both admissible
       must == syntaxBad \/ teInvalid \/ noHost \/ (tes = <<>> /\ (clInvalid \/ clDiffer))
       may  == Len(hosts) > 1 \/ Len(cls) > 1 \/ Has(cls, "cl:listeq") \/ Has(cls, "cl:plus") \/ (tes # <<>> /\ cls # <<>>)
-              \/ c.rl \in {"optstar", "abs:b"} \/ c.chunk = "ext"
+              \/ c.rl \in {"star", "abs:b"} \/ c.chunk = "ext" \/ connect
       chunked == tes # <<>>
       bodyBad == chunked /\ c.chunk \in {"badsize", "lf"}
-      hostsOk == IF c.rl = "abs:b" THEN {"b"} ELSE {hosts[i] : i \in 1..Len(hosts)}    \* absolute-form wins (RFC 9112 3.2.2)
+      \* absolute-form wins (RFC 9112 3.2.2); CONNECT names its destination in the request-target
+      hostsOk == IF c.rl = "abs:b" THEN {"b"} ELSE IF c.rl = "auth" THEN {"a"} ELSE {hosts[i] : i \in 1..Len(hosts)}
       f == IF chunked THEN "chunked" ELSE IF cls # <<>> THEN "cl" ELSE "none"
       n == IF chunked THEN 5 ELSE IF cls # <<>> THEN ClVal(cls[1]) ELSE 0
       closing == Has(c.hdrs, "conn:close")
       lists == {IF closing THEN <<Req(rl.method, rl.target, h, f, n)>> ELSE <<Req(rl.method, rl.target, h, f, n), SentinelH1>> : h \in hostsOk}
   IN IF must \/ bodyBad THEN [classes |-> {"r400", "close"}, fwd |-> {}, partial |-> bodyBad /\ ~must]
-     ELSE [classes |-> {"fwd"} \cup (IF may THEN {"r400", "close"} ELSE {}) \cup (IF c.rl = "optstar" THEN {"r404"} ELSE {}),
+     ELSE [classes |-> {"fwd"} \cup (IF may THEN {"r400", "close"} ELSE {}) \cup (IF c.rl = "star" THEN {"r404"} ELSE {})
+                             \cup (IF connect THEN {"r404", "r405", "r501"} ELSE {}),
            fwd |-> lists, partial |-> c.chunk = "ext"]
 
+\* The method's part (RFC 9113): a CONNECT request carries :method and :authority only - with :scheme or :path it is
+\* malformed (8.5) and MUST be refused; in the prescribed form it may be refused (no tunnels here) or forwarded as
+\* "CONNECT authority"; every other method needs :scheme and :path (8.3.1); ":path: *" only with OPTIONS. The
+\* content-length vs DATA rule (8.1.1) knows no request method: "the response to a HEAD request" has no content, a HEAD
+\* (or GET) REQUEST whose content-length differs from its DATA is malformed exactly like a POST.
 H2Adm(c) ==
   LET cls   == Filter(c.hdrs, H2Cl)
+      connect == c.m = "CONNECT"
       hostT == Filter(c.hdrs, {"host:a", "host:b"})
       auth  == IF c.ps = "auth:b" THEN "b" ELSE "a"
       hv(t) == IF t = "host:a" THEN "a" ELSE "b"
-      psMust == c.ps \in {"nomethod", "nopath", "noscheme", "dup:path", "dup:method", "after", "unknown", "path:empty",
-                          "path:noslash", "path:star", "path:space", "path:frag", "method:bad"}
-                \/ (c.ps = "noauth" /\ hostT = <<>>)
+      psMust == c.ps \in {"nomethod", "dup:path", "dup:method", "after", "unknown", "path:empty",
+                          "path:noslash", "path:space", "path:frag", "method:bad"}
+                \/ (c.ps = "noauth" /\ (hostT = <<>> \/ connect))
+                \/ (c.ps = "path:star" /\ c.m # "OPTIONS")
+                \/ (connect /\ c.ps # "nosp")                                  \* CONNECT with :scheme and/or :path
+                \/ (~connect /\ c.ps \in {"nopath", "noscheme", "nosp"})
       hdrMust == (\E i \in 1..Len(c.hdrs) : c.hdrs[i] \in H2Bad \cup {"cl:plus", "cl:sp", "cl:empty"})
                  \/ (\E i, j \in 1..Len(cls) : cls[i] \in {"cl:5", "cl:3"} /\ cls[j] \in {"cl:5", "cl:3"} /\ ClVal(cls[i]) # ClVal(cls[j]))
                  \/ (\E i, j \in 1..Len(hostT) : hostT[i] # hostT[j])
@@ -396,14 +480,14 @@ H2Adm(c) ==
       total  == Sum(DataFrames(c.data))
       es0    == c.data = "es" /\ c.tr = "none"
       bodyMust == (declared /\ total # n) \/ c.tr \in {"pseudo", "cs", "badval", "noes"}
-      may == c.ps \in {"noauth", "scheme:bad", "path:optstar"} \/ Len(cls) > 1 \/ Has(cls, "cl:list") \/ Len(hostT) > 1
+      may == c.ps \in {"noauth", "scheme:bad", "path:star"} \/ connect \/ Len(cls) > 1 \/ Has(cls, "cl:list") \/ Len(hostT) > 1
              \/ (\E i \in 1..Len(hostT) : c.ps # "noauth" /\ hv(hostT[i]) # auth)
       host == IF c.ps = "noauth" /\ hostT # <<>> THEN hv(hostT[1]) ELSE auth
-      m == IF c.ps = "path:optstar" THEN "OPTIONS" ELSE "POST"
-      t == IF c.ps = "path:optstar" THEN "*" ELSE "/p"
+      m == c.m
+      t == IF c.ps = "path:star" THEN "*" ELSE IF connect THEN "a:80" ELSE "/p"
       f == IF declared \/ es0 THEN "cl" ELSE "chunked"
       len == IF declared THEN n ELSE total
-      r404 == IF c.ps = "path:optstar" THEN {"r404"} ELSE {}
+      r404 == IF c.ps = "path:star" THEN {"r404"} ELSE {}
   IN IF psMust \/ hdrMust THEN [classes |-> {"rst", "goaway"}, fwd |-> {}, partial |-> FALSE]
      ELSE IF bodyMust THEN [classes |-> {"rst", "goaway"} \cup r404, fwd |-> {}, partial |-> ~es0]
      ELSE [classes |-> {"fwd"} \cup (IF may THEN {"rst", "goaway", "r400", "r404"} ELSE {}),
@@ -414,28 +498,52 @@ Adm(c) == IF c.front = "h1" THEN H1Adm(c) ELSE H2Adm(c)
 ---------------------------------------------------------------------------
 (* Cases *)
 
-H1Case(r, h, s, k) == [front |-> "h1", rl |-> r, host |-> h, hdrs |-> s, chunk |-> k]
-H2Case(p, s, d, t) == [front |-> "h2", ps |-> p, hdrs |-> s, data |-> d, tr |-> t]
+H1Case(r, m, h, s, k) == [front |-> "h1", rl |-> r, m |-> m, host |-> h, hdrs |-> s, chunk |-> k]
+H2Case(p, m, s, d, t) == [front |-> "h2", ps |-> p, m |-> m, hdrs |-> s, data |-> d, tr |-> t]
 
+\* the slices over every token are sent with POST (and "*" also with GET / OPTIONS, as before the method dimension) ...
 H1Cases ==
-  {H1Case(r, h, s, "valid") : r \in RL1, h \in HostShapes, s \in SeqUpTo(H1Tok, 1)}
-  \cup {H1Case(r, h, s, "valid") : r \in {"ok", "http10"}, h \in {"a", "b"}, s \in SeqUpTo(H1Tok, MaxHdr)}
-  \cup {H1Case("ok", "a", s, k) : s \in {x \in SeqUpTo(H1Tok, 2) : \E i \in 1..Len(x) : x[i] \in H1Te}, k \in ChunkShapes \ {"valid"}}
+  {H1Case(r, "POST", h, s, "valid") : r \in RL1, h \in HostShapes, s \in SeqUpTo(H1Tok, 1)}
+  \cup {H1Case("star", m, h, s, "valid") : m \in {"GET", "OPTIONS"}, h \in HostShapes, s \in SeqUpTo(H1Tok, 1)}
+  \cup {H1Case(r, "POST", h, s, "valid") : r \in {"ok", "http10"}, h \in {"a", "b"}, s \in SeqUpTo(H1Tok, MaxHdr)}
+  \cup {H1Case("ok", "POST", "a", s, k) : s \in {x \in SeqUpTo(H1Tok, 2) : \E i \in 1..Len(x) : x[i] \in H1Te}, k \in ChunkShapes \ {"valid"}}
+
+\* ... and the METHOD slices (every tier): every method x the request-target forms x the framing-relevant tokens,
+\* Host shapes, chunked-body shapes, Connection: close
+H1MCore == {"cl:5", "cl:3", "cl:plus", "te:chunked", "te:gzip"}
+H1MethodCases ==
+  {H1Case(r, m, "a", s, "valid") : r \in {"ok", "star", "auth"}, m \in Methods, s \in SeqUpTo(H1MCore, 2)}
+  \cup {H1Case(r, m, h, s, "valid") : r \in {"ok", "auth", "abs:b", "http10"}, m \in Methods, h \in {"b", "none", "ab"},
+                                     s \in {<<>>, <<"cl:5">>, <<"te:chunked">>}}
+  \cup {H1Case("abs:b", m, "a", s, "valid") : m \in Methods, s \in {<<>>, <<"cl:5">>}}
+  \cup {H1Case(r, m, "a", <<"te:chunked">>, k) : r \in {"ok", "auth"}, m \in Methods, k \in ChunkShapes \ {"valid"}}
+  \cup {H1Case(r, m, "a", s, "valid") : r \in {"ok", "auth"}, m \in Methods, s \in {<<"conn:close">>, <<"cl:5", "conn:close">>}}
 
 \* triples of the framing-relevant tokens (order matters between Content-Length and Transfer-Encoding fields); part of
 \* every tier, subsumed by the wide slice when MaxHdr >= 3
 H1Core == {"cl:5", "cl:3", "cl:plus", "cl:listeq", "te:chunked", "te:gzip", "te:chunked,identity", "te:xchunked"}
 H2Core == {"cl:5", "cl:3", "host:a", "host:b", "te:trailers", "plain", "cookie"}
-H1Triples == {H1Case("ok", "a", s, "valid") : s \in [1..3 -> H1Core]}
-H2Triples == {H2Case("ok", s, d, "none") : s \in [1..3 -> H2Core], d \in {"es", "d5"}}
+H1Triples == {H1Case("ok", "POST", "a", s, "valid") : s \in [1..3 -> H1Core]}
+H2Triples == {H2Case("ok", "POST", s, d, "none") : s \in [1..3 -> H2Core], d \in {"es", "d5"}}
 
 H2Cases ==
-  {H2Case(p, s, d, "none") : p \in PS, s \in SeqUpTo(H2Tok, 1), d \in {"es", "d5"}}
-  \cup {H2Case("ok", s, d, "none") : s \in SeqUpTo(H2Tok, MaxHdr), d \in {"es", "d5"}}
-  \cup {x \in {H2Case("ok", s, d, t) : s \in {<<>>, <<"cl:5">>, <<"cl:3">>, <<"cl:5", "cl:5">>, <<"plain">>},
-                                       d \in DataShapes, t \in TrShapes} : x.data # "es" \/ x.tr = "none"}
+  {H2Case(p, "POST", s, d, "none") : p \in PS, s \in SeqUpTo(H2Tok, 1), d \in {"es", "d5"}}
+  \cup {H2Case("path:star", "OPTIONS", s, d, "none") : s \in SeqUpTo(H2Tok, 1), d \in {"es", "d5"}}
+  \cup {H2Case("ok", "POST", s, d, "none") : s \in SeqUpTo(H2Tok, MaxHdr), d \in {"es", "d5"}}
+  \cup {x \in {H2Case("ok", "POST", s, d, t) : s \in {<<>>, <<"cl:5">>, <<"cl:3">>, <<"cl:5", "cl:5">>, <<"plain">>},
+                                               d \in DataShapes, t \in TrShapes} : x.data # "es" \/ x.tr = "none"}
 
-Cases == H1Cases \cup H2Cases \cup H1Triples \cup H2Triples
+\* METHOD slices (every tier): every method x the pseudo-header shapes that matter for it x content-length lists x
+\* every DATA shape (=, <, >, exact-then-excess against the declaration) x trailer shapes
+H2MethodCases ==
+  {H2Case(p, m, s, d, "none") : p \in {"ok", "noscheme", "nopath", "nosp", "path:star", "noauth", "auth:b"}, m \in Methods,
+                                s \in {<<>>, <<"cl:5">>, <<"host:a">>}, d \in {"es", "d5", "d3"}}
+  \cup {x \in {H2Case("ok", m, s, d, t) : m \in Methods,
+                                          s \in {<<>>, <<"cl:5">>, <<"cl:3">>, <<"cl:5", "cl:5">>, <<"cl:5", "cl:3">>, <<"plain">>},
+                                          d \in DataShapes, t \in {"none", "plain", "framing", "badval", "noes"}}
+          : x.data # "es" \/ x.tr = "none"}
+
+Cases == H1Cases \cup H2Cases \cup H1Triples \cup H2Triples \cup H1MethodCases \cup H2MethodCases
 
 Init == case \in Cases
 Next == UNCHANGED case
